@@ -196,12 +196,16 @@ def run_verus_unit(u, scratch, tier, extra_flags=()):
         for s in spans:
             if s.get("label") and ("failed" in s["label"]):
                 clause_txt = " ".join(t["text"].strip() for t in s.get("text", []))[:400]
+        # a failing assertion that is part of a proof HINT of the unit (not of the code, not a contract clause) and
+        # carries no property label means "the proof script no longer fits this code": undecided, not a violation
+        prim_lines = [s_["line_start"] for s_ in prim]
+        hint_only = bool(prim_lines) and not labels and all(0 < ln_ <= len(gen_lines) and "/*@hint*/" in gen_lines[ln_ - 1] for ln_ in prim_lines)
         owners = sorted({label_prop(l) for l in labels if label_prop(l)})
         if not owners:
             owners = list(props or unit_props)
         lab = "+".join(labels) if labels else _slug(msg)
         res["failures"].append(dict(
-            obligation=f"{u['name']}::{fn}::{lab}", labels=labels, owners=owners, fn=fn,
+            obligation=f"{u['name']}::{fn}::{lab}", labels=labels, owners=owners, fn=fn, hint_only=hint_only,
             src=srcloc, message=msg, clause=clause_txt,
             rendered=e.get("rendered", "")[:6000]))
     # obligations: per function one "body" obligation + labelled clauses
@@ -446,12 +450,19 @@ def finish(prop, args, seed, t0, results):
             continue
         seen.add(f["obligation"]); uniq.append((f, r))
     failures = uniq
+    hint_fail = []
     for f, r in failures:
         k = next((k for k in known if k["obligation"] == f["obligation"]), None)
         if k:
             known_hits.append((k, f))
+        elif f.get("hint_only"):
+            hint_fail.append((f, r))
         else:
             violations.append((f, r))
+    if hint_fail and not violations:
+        # only proof-script assertions fail, no contract clause and no obligation of the code itself: undecided
+        infra.append("proof hint(s) of the unit no longer hold on this code and nothing else fails (the proof script does not "
+                     "fit the changed code; undecided): " + "; ".join(f["obligation"] for f, _ in hint_fail[:4]))
     # allow-list scan of trusted constructs
     allow = load_allow()
     unlisted = []
